@@ -12,7 +12,7 @@ written is therefore a prefix of the (track, feature, observation) order:
 * for `t`, the feature `a0` only, up to the observation before the first one outside the extent;
 
 nothing of `t` for the other features, nothing of the tracks after `t` (`writtenObs`). `add_collection_partial` states it
-cell by cell; `partial_conservation` is the conservation law on that path (the cell sizes of a feature add up to the number
+cell by cell (`add_collection_partial_total`: every collection with an observation outside splits that way); `partial_conservation` is the conservation law on that path (the cell sizes of a feature add up to the number
 of observations WRITTEN for it, so the features of one raster disagree by the part of `t` that only `a0` received);
 `partial_then_compute` says that a later `computeAggregates` — after any calls other than `addCollectionToRaster` —
 aggregates exactly those values, band by band. -/
@@ -183,6 +183,47 @@ theorem add_collection_partial (s : RState α) (hg : WF s.g) (a0 : String) (ares
         rw [List.lookup_cons, hne]
         exact lookup_map_key G (fun a => growAll_key _ _ _ _) arest af hmem
       · rw [hc i j]; simp [writtenObs, e]
+
+/-- every collection with an observation outside the extent has a FIRST track with one: the tracks before it lie inside -/
+theorem first_outside_track (g : Grid α) (T : List (Trk α)) (hout : ∃ t ∈ T, ∃ p ∈ t.pts, ¬ Inside g p.1 p.2) :
+    ∃ (Tpre : List (Trk α)) (t : Trk α) (Tpost : List (Trk α)), T = Tpre ++ t :: Tpost
+      ∧ (∀ t' ∈ Tpre, InExtent g t') ∧ ∃ p ∈ t.pts, ¬ Inside g p.1 p.2 := by
+  let q : Trk α → Bool := fun t => t.pts.all (fun p => decide ((g.xmin ≤ p.1 ∧ p.1 ≤ g.xmax) ∧ (g.ymin ≤ p.2 ∧ p.2 ≤ g.ymax)))
+  have hq : ∀ t, q t = true ↔ InExtent g t := by
+    intro t
+    simp only [q, List.all_eq_true, decide_eq_true_eq, InExtent]
+  have hex : ∃ t ∈ T, q t = false := by
+    obtain ⟨t, ht, p, hp, hpo⟩ := hout
+    refine ⟨t, ht, ?_⟩
+    rw [← Bool.not_eq_true, hq]
+    intro h
+    exact hpo (h p hp)
+  obtain ⟨t, Tpost, hsplit, hfalse⟩ := split_first_outside q T hex
+  refine ⟨T.takeWhile q, t, Tpost, hsplit, fun t' ht' => (hq t').1 (takeWhile_all q T t' ht'), ?_⟩
+  have hn : ¬ InExtent g t := by rw [← hq, hfalse]; simp
+  by_contra hno
+  apply hn
+  intro p hp
+  by_contra hin
+  exact hno ⟨p, hp, hin⟩
+
+/-- `add_collection_partial` covers EVERY `TypeError` of `add_collection_outside`: whenever some observation of the collection
+lies outside the extent (at least one band, every track having every feature), the collection splits at its first track with
+such an observation and the values left behind are those of `writtenObs` for that split. -/
+theorem add_collection_partial_total (s : RState α) (hg : WF s.g) (a0 : String) (arest : List String) (T : List (Trk α))
+    (hperm : (a0 :: arest).isPerm (afsOf s.bands) = true)
+    (hfeat : ∀ t' ∈ T, ∀ af ∈ a0 :: arest, HasFeat t' af) (hout : ∃ t ∈ T, ∃ p ∈ t.pts, ¬ Inside s.g p.1 p.2) :
+    ∃ (Tpre : List (Trk α)) (t : Trk α) (Tpost : List (Trk α)) (V : Vals α), T = Tpre ++ t :: Tpost
+      ∧ (∀ t' ∈ Tpre, InExtent s.g t') ∧ (∃ p ∈ t.pts, ¬ Inside s.g p.1 p.2)
+      ∧ addColl Int.floor s (a0 :: arest) T = ({ s with values := some V }, some .type)
+      ∧ V.map (·.1) = a0 :: arest
+      ∧ ∀ af ∈ a0 :: arest, ∃ c, V.lookup af = some c ∧ Rect c s.g.nrow.toNat s.g.ncol.toNat
+          ∧ ∀ i j, cellAt c i j = located (fun o : α × α × Option α => getCell Int.floor s.g o.1 o.2.1) (fun o => o.2.2) j i
+              (writtenObs s.g a0 Tpre t af) := by
+  obtain ⟨Tpre, t, Tpost, hT, hpre, houtt⟩ := first_outside_track s.g T hout
+  subst hT
+  obtain ⟨V, h1, h2, h3⟩ := add_collection_partial s hg a0 arest Tpre Tpost t hperm hfeat hpre houtt
+  exact ⟨Tpre, t, Tpost, V, rfl, hpre, houtt, h1, h2, h3⟩
 
 /-- every observation that has been written lies in the extent (so it has a cell of the grid) -/
 theorem writtenObs_inside (g : Grid α) (a0 : String) (Tpre : List (Trk α)) (t : Trk α) (af : String)
